@@ -443,9 +443,12 @@ fn recursion_case(cx: &mut Cx, r: &mut Rng) {
         ("through-body", "{% component w() %}{{ body }}{% endcomponent %}{% component r() %}{% <w> %}{{ <r /> }}{% </w> %}{% endcomponent %}{{ <r /> }}", false),
         ("through-include", "{% component r() %}{% include \"inc\" %}{% endcomponent %}{{ <r /> }}", false),
         ("counter-to-15", "{% component r(n) %}{% if n < 15 %}{{ <r n={n + 1} /> }}{% else %}end{% endif %}{% endcomponent %}{{ <r n={0} /> }}", true),
-        ("counter-to-40", "{% component r(n) %}{% if n < 40 %}{{ <r n={n + 1} /> }}{% else %}end{% endif %}{% endcomponent %}{{ <r n={0} /> }}", false),
+        // 40 levels with a base case: beyond today's limit of 20, but the limit's value is the engine's business — either
+        // the limit stops it, or it renders exactly what the recursion says
+        ("counter-to-40", "{% component r(n) %}{% if n < 40 %}{{ <r n={n + 1} /> }}{% else %}end{% endif %}{% endcomponent %}{{ <r n={0} /> }}", true),
     ];
     let (name, src, terminates) = shapes[r.below(shapes.len())];
+    let may_hit_limit = name == "counter-to-40";
     let tpls = vec![("t".to_string(), src.to_string()), ("inc".to_string(), "{{ <r /> }}".to_string())];
     cx.eval();
     let res = guard(|| {
@@ -471,7 +474,7 @@ fn recursion_case(cx: &mut Cx, r: &mut Rng) {
             }
         }
         Ok(Err(e)) => {
-            if terminates {
+            if terminates && !may_hit_limit {
                 cx.violation("C05/bounded-recursion-refused", format!("{name} (within the nesting limit) failed: {}", clip(&e, 200)), json!({"templates": tpls}));
             }
         }
